@@ -72,6 +72,8 @@ Expect(c) ==
     \* decoding BE16(level) . BE32(count) . count prefixes of ceil((level+1)/8) bytes (canonical, increasing), c.extra trailing/missing bytes
     [] c.op = "aggparam_decode" -> IF c.level <= 65535 /\ c.count >= 1 /\ c.extra = 0 /\ c.sorted THEN "Ok" ELSE "Err"
     [] c.op \in {"agg_wrong_len", "unshard_wrong_len", "truncate_len", "decode_result_len"} -> IF c.got = c.want THEN "Ok" ELSE "Err"
+    \* Poplar1 unshard / aggregate / merge with aggregate shares whose tree-level kind or length is not the aggregation parameter's
+    [] c.op \in {"poplar1_unshard", "poplar1_aggregate"} -> IF c.pleaf = c.sleaf /\ c.pn = c.sn THEN "Ok" ELSE "Err"
     [] c.op = "wrong_role_share" -> "Either"
     [] c.op = "unshard_count" -> "Either"
 \* the follow-up flow (shard -> verify -> aggregate -> unshard) is run when the sizes fit the memory budget
